@@ -685,7 +685,7 @@ class CphotAng:
             or len(init_lat) < 1
             or len(init_long) < 1
         ):
-            return np.empty([]), np.empty([])
+            return np.empty(0), np.empty(0)
 
         #######################
         b = db.from_sequence(
